@@ -75,7 +75,9 @@ GROUPS = {
     "numeric": ("a: int, b: int, m: int", ["m > 0"], '{"minimum": a, "maximum": b, "exclusiveMinimum": b, "exclusiveMaximum": a, "multipleOf": m}'),
     "numeric_typed": ("a: int, m: int", ["m > 0"], '{"type": ["integer", "number"], "minimum": a, "multipleOf": m, "const": a}'),
     "string": ("n: int, k: int", ["n >= 0", "k >= 0"], '{"minLength": n, "maxLength": k, "pattern": "^a.c$"}'),
-    "array": ("n: int, k: int, u: bool", ["n >= 0", "k >= 0"], '{"minItems": n, "maxItems": k, "uniqueItems": u, "items": [{"type": "integer"}, {"minLength": n}], "additionalItems": False, "contains": {"const": n}}'),
+    "array": ("n: int, k: int", ["n >= 0", "k >= 0"], '{"minItems": n, "maxItems": k}'),
+    "array_unique": ("u: bool", [], '{"uniqueItems": u}'),
+    "array_items": ("n: int", ["n >= 0"], '{"items": [{"type": "integer"}, {"minLength": n}], "additionalItems": False, "contains": {"const": n}}'),
     "object": ("n: int, k: int", ["n >= 0", "k >= 0"], '{"minProperties": n, "maxProperties": k, "required": ["a"], "properties": {"a": {"minimum": n}, "a b": {"type": "string"}}, "patternProperties": {"^b": {"maximum": k}}, "additionalProperties": False, "propertyNames": {"maxLength": n}, "dependencies": {"a": ["b"], "b": {"minProperties": k}}}'),
     "object_typed": ("n: int", ["n >= 0"], '{"type": "object", "title": "T", "required": ["a", "zz"], "properties": {"a": {"minimum": n, "default": "not a number"}}, "additionalProperties": {"type": "integer"}, "maxProperties": n}'),
     "literals": ("c: Union[int, bool, str, None]", ["not isinstance(c, str) or len(c) <= 1"], '{"enum": [c, 1, "a", None, [1, [True]], {"a": {"b": 1.5}}], "not": {"const": c}}'),
@@ -84,17 +86,17 @@ GROUPS = {
 }
 
 PARSE_TEMPLATES = {
-    "names": ("s: str", ["len(s) <= 2"], '{"type": "object", "title": "T" + s, "properties": {s: {"type": "integer"}, "x": True}, "required": [s, "y"], "dependencies": {s: [s], "q": {"required": [s]}}, "description": s}'),
-    "title_only": ("s: str", ["len(s) <= 3"], '{"type": "object", "title": s}'),
-    "autotitle": ("s: str", ["len(s) <= 2"], '{"type": "object", "_x_autotitle": s, "properties": {"a": {"type": "object", "_x_autotitle": s + "Item"}}}'),
-    "untyped_names": ("s: str, t: str", ["len(s) <= 2", "len(t) <= 2"], '{"properties": {s: {}, t: False}, "required": [t]}'),
+    "names": ("s: str", ["len(s) <= 1"], '{"type": "object", "title": "T" + s, "properties": {s: {"type": "integer"}, "x": True}, "required": [s, "y"], "dependencies": {s: [s], "q": {"required": [s]}}, "description": s}'),
+    "title_only": ("s: str", ["len(s) <= 2"], '{"type": "object", "title": s}'),
+    "autotitle": ("s: str", ["len(s) <= 1"], '{"type": "object", "_x_autotitle": s, "properties": {"a": {"type": "object", "_x_autotitle": s + "Item"}}}'),
+    "untyped_names": ("s: str, t: str", ["len(s) <= 1", "len(t) <= 1"], '{"properties": {s: {}, t: False}, "required": [t]}'),
     "type_value": ("i: int, j: int", ["0 <= i < 7", "0 <= j < 7"], '{"type": [TYPES[i], TYPES[j]] if i != j else TYPES[i], "title": "X", "minimum": i, "items": [], "properties": {}, "required": []}'),
     "empty_containers": ("f: bool", [], '{"items": [], "properties": {}, "patternProperties": {}, "dependencies": {}, "required": [], "definitions": {}, "additionalItems": f, "additionalProperties": f}'),
     "bool_subschemas": ("a: bool, b: bool", [], '{"items": [a, b], "additionalItems": b, "contains": a, "properties": {"p": b}, "patternProperties": {"^x": a}, "propertyNames": b, "dependencies": {"k": a}, "anyOf": [a, b], "oneOf": [b], "allOf": [a], "not": b}'),
     "numbers": ("m: int, n: int", ["m > 0", "n >= 0"], '{"type": "number", "multipleOf": m, "minimum": -m, "maximum": 2.5, "exclusiveMinimum": n, "minLength": n, "maxItems": n, "minProperties": n, "default": -0.0, "const": 1e308, "enum": [10 ** 400, n]}'),
     "literal_shapes": ("d: Union[int, bool, str, None, List[int], Dict[str, int]]", ["not isinstance(d, str) or len(d) <= 2", "not isinstance(d, list) or len(d) <= 2", "not isinstance(d, dict) or (len(d) <= 1 and all(k in ('a', '_x_autotitle') for k in d))"], '{"default": d, "const": [d, {"_x_autotitle": d}], "enum": [d], "anyOf": [{"default": d}, {"type": "null"}]}'),
     "object_in_positions": ("s: str", ["len(s) <= 1"], '{"type": "array", "items": [{"type": "object", "title": s + "A"}], "additionalItems": {"type": "object", "title": s + "B", "additionalProperties": {"type": "object", "title": s + "C"}}, "contains": {"type": ["object", "null"], "title": s + "D"}}'),
-    "ignored_keywords": ("s: str", ["len(s) <= 2"], '{"$id": s, "$schema": s, "$comment": s, "examples": [s], "readOnly": True, "contentMediaType": s, "format": s, s: s}'),
+    "ignored_keywords": ("s: str", ["len(s) <= 1"], '{"$id": s, "$schema": s, "$comment": s, "examples": [s], "readOnly": True, "contentMediaType": s, "format": s, s: s}'),
     "malformed_values_ignored": ("f: bool", [], '{"properties": {"a": {"type": "integer"}}, "patternProperties": {"^a": f}, "dependencies": {"a": ["b"], "b": f}}'),
 }
 TYPES = ["null", "boolean", "integer", "number", "string", "array", "object"]
@@ -110,26 +112,32 @@ def e2_replay(v, m):
 def harnesses(ctx) -> List[H]:
     hs: List[H] = []
     for name, (hargs, pre, S) in GROUPS.items():
-        hs.append(mk(f"c10_total_{name}", f"{hargs}, v: {ANY}", pre + ANYPRE, f"return total(parse_s({S}), v)", timeout=200, group="validation",
-                     covers=f"{S} on values of every JSON type"))
+        hs.append(mk(f"c10_total_{name}", f"{hargs}, v: {ANY}", pre + ANYPRE, f"return total(parse_s({S}), v)", timeout=200 if name != "array_unique" else 900, group="validation",
+                     tier="thorough" if name == "array_unique" else "quick", covers=f"{S} on values of every JSON type"))
         hs.append(mk(f"c10_total_msg_{name}", f"{hargs}, v: {ANY}", pre + ANYPRE, f"return total(parse_s({S}), v)", timeout=120, group="validation-messages",
-                     message_stub=False, expect="unknown", tier="quick" if name in ("numeric", "object", "composition") else "thorough",
+                     message_stub=False, expect="unknown", tier="quick" if name in ("numeric",) else "thorough",
                      covers="same with real error-message formatting (repr of symbolic values realises them: can refute, rarely exhausts)"))
     hs.append(mk("c10_total__reach_reject", f"a: int, b: int, m: int, v: {ANY}", ["m > 0"] + ANYPRE,
                  "return outcome_kind(parse_s({'minimum': a, 'multipleOf': m}), v) != 'ValidationError'", kind="witness", timeout=30, group="validation"))
     # unusual unicode
-    hs.append(mk("c10_unicode_strings", "n: int, v: str, c: str", ["n >= 0", "len(v) <= 3", "len(c) <= 2"],
-                 'return total(parse_s({"type": "string", "minLength": n, "pattern": "^.a", "const": c, "enum": [c, v], "propertyNames": {"pattern": "b"}}), v) and total(parse_s({"propertyNames": {"pattern": "^a", "maxLength": n}, "required": [c], "properties": {c: {"const": v}}}), {v: c})',
-                 timeout=200, group="unicode", covers="any code points (surrogates, NUL) as values, keys, const and required names"))
-    hs.append(mk("c10_format_uuid", "v: str", ["len(v) <= 3"], 'return total(parse_s({"type": "string", "format": "uuid"}), v)', timeout=100, group="format", expect="unknown"))
-    hs.append(mk("c10_format_datetime", "v: str", ["len(v) <= 3"], 'return total(parse_s({"format": "date-time"}), v)', timeout=100, group="format", expect="unknown"))
+    hs.append(mk("c10_unicode_values", "n: int, v: str, c: str", ["n >= 0", "len(v) <= 2", "len(c) <= 1"],
+                 'return total(parse_s({"type": "string", "minLength": n, "pattern": "^.a", "const": c, "enum": [c, v]}), v)',
+                 timeout=300, group="unicode", covers="any code points (surrogates, NUL) as values and literals"))
+    hs.append(mk("c10_unicode_keys", "n: int, v: str, c: str", ["n >= 0", "len(v) <= 1", "len(c) <= 1"],
+                 'return total(parse_s({"propertyNames": {"pattern": "^a", "maxLength": n}, "required": [c], "properties": {c: {"const": v}}}), {v: c})',
+                 timeout=300, group="unicode", expect="unknown", tier="thorough", covers="any code points as member names, required names and property names (names are realised by dict hashing)"))
+    hs.append(mk("c10_format_uuid", "v: str", ["len(v) <= 3"], 'return total(parse_s({"type": "string", "format": "uuid"}), v)', timeout=100, group="format", expect="unknown", tier="thorough"))
+    hs.append(mk("c10_format_datetime", "v: str", ["len(v) <= 3"], 'return total(parse_s({"format": "date-time"}), v)', timeout=100, group="format", expect="unknown", tier="thorough"))
     hs.append(mk("c10_format_runlength", "n: int, i: int", ["0 <= n <= 64", "0 <= i < 8"],
                  'c = ("9", "a", "-", ":", "T", "+", ".", " ")[i]\nreturn total(parse_s({"format": "date-time"}), c * n) and total(parse_s({"format": "uuid"}), c * n) and total(parse_s({"format": "date-time"}), "2020-01-01T00:00:00." + c * n)',
                  timeout=400, group="format", covers="run-length dimension: repeated characters up to 64 (reaches the >= 20-digit dateutil overflow)"))
     # unhashable / nested items
-    hs.append(mk("c10_unique_unhashable", "v: List[List[Union[int, bool]]], w: List[Dict[str, int]]", ["len(v) <= 2", "all(len(x) <= 2 for x in v)", "len(w) <= 2", "all(len(d) <= 1 and all(k in ('a', 'b') for k in d) for d in w)"],
-                 'return total(parse_s({"uniqueItems": True}), v) and total(parse_s({"uniqueItems": True, "contains": {"required": ["a"]}}), w) and total(parse_s({"uniqueItems": True}), [v, w, v])',
-                 timeout=300, group="arrays"))
+    hs.append(mk("c10_unique_scalars", "u: bool, v: Union[int, str, List[Union[int, bool]]]", ["not isinstance(v, str) or len(v) <= 1", "not isinstance(v, list) or len(v) <= 3"],
+                 'return total(parse_s({"uniqueItems": u}), v)', timeout=200, group="arrays"))
+    hs.append(mk("c10_unique_unhashable_lists", "v: List[List[Union[int, bool]]]", ["len(v) <= 2", "all(len(x) <= 2 for x in v)"],
+                 'return total(parse_s({"uniqueItems": True}), v) and total(parse_s({"uniqueItems": True}), [v, 1, v])', timeout=300, group="arrays"))
+    hs.append(mk("c10_unique_unhashable_dicts", "w: List[Dict[str, int]]", ["len(w) <= 2", "all(len(d) <= 1 and all(k in ('a', 'b') for k in d) for d in w)"],
+                 'return total(parse_s({"uniqueItems": True, "contains": {"required": ["a"]}}), w)', timeout=300, group="arrays"))
     hs.append(mk("c10_deep_nesting", "n: int, x: Union[int, bool, None]", ["0 <= n <= 40"],
                  'return total(parse_s({"uniqueItems": True, "const": nest(3, x)}), nest(n, x)) and total(parse_s(nest_schema(n, {"type": "integer"})), nest(n, x)) and total(parse_s({"enum": [nest(n, 1)]}), nest(n, x))',
                  timeout=400, group="arrays", covers="nesting depth n <= 40 built from a symbolic n"))
@@ -138,8 +146,9 @@ def harnesses(ctx) -> List[H]:
                  timeout=120, group="numbers", covers="ints far beyond double range against int and float bounds"))
     # parse totality
     for name, (hargs, pre, S) in PARSE_TEMPLATES.items():
-        hs.append(mk(f"c10_parse_{name}", hargs, pre, f"return parse_total({S}) and doc_total({S})", timeout=200, group="parse",
-                     expect="confirmed", covers=S))
+        hs.append(mk(f"c10_parse_{name}", hargs, pre, f"return parse_total({S}) and doc_total({S})", timeout=400, group="parse",
+                     tier="thorough" if name in ("names", "autotitle", "untyped_names", "title_only", "ignored_keywords", "object_in_positions") else "quick",
+                     expect="unknown" if name in ("names", "autotitle", "untyped_names", "object_in_positions", "title_only", "ignored_keywords") else "confirmed", covers=S))
     hs.append(mk("c10_parse__reach_error", "s: str", ["len(s) <= 1"], 'return parse_total({"type": "object", "title": s}) and len(s) > 0', kind="witness", timeout=30))
     return hs
 
